@@ -96,7 +96,28 @@ def gcm_c(tag):
     yield from _delegate(tag)
 
 
-GCM = {"a": gcm_a, "b": gcm_b, "c": gcm_c}
+class InnerCM:
+    def __init__(self, tag):
+        self.tag = tag
+
+    def __enter__(self):
+        return self
+
+    def __exit__(self, *a):
+        return False
+
+
+INNER = {}   # tag -> the manager opened inside gcm_d's generator
+
+
+@contextmanager
+def gcm_d(tag):
+    INNER[tag] = InnerCM(tag)
+    with INNER[tag]:
+        yield tag
+
+
+GCM = {"a": gcm_a, "b": gcm_b, "c": gcm_c, "d": gcm_d}
 BY_FRAME = {}   # id(generator frame) -> link index
 
 
@@ -106,17 +127,26 @@ def _ucg_hook(frame, ctx):
         LOG.append(["ucg", None, False])
         return None
     mgr = W["objs"][idx]
-    LOG.append(["ucg", idx, frame.pyframe is mgr.gen.gi_frame and isinstance(frame, stackscope.Frame)])
+    ok = frame.pyframe is mgr.gen.gi_frame and isinstance(frame, stackscope.Frame)
+    # the hook must see the same, fully analysed Frame on both paths (inner stack present / exiting): its
+    # contexts are the managers opened inside the generator (real hooks, e.g. the pytest-trio glue, rely on it)
+    want = [INNER.get("g%d" % idx)] if W["links"][idx]["fn"] == "d" else []
+    got = [c.obj for c in frame.contexts]
+    if len(got) != len(want) or any(a is not b for a, b in zip(got, want)):
+        ok = False
+    LOG.append(["ucg", idx, ok])
     return _result(W["links"][idx]["hook"], idx)
 
 
 unwrap_context_generator.register(gcm_a, _ucg_hook)
 unwrap_context_generator.register(gcm_c, _ucg_hook)
+unwrap_context_generator.register(gcm_d, _ucg_hook)
 
 
 def build(case, enter_head=True):
     del LOG[:]
     BY_FRAME.clear()
+    INNER.clear()
     W["links"] = case["links"]
     W["exiting"] = case["exiting"]
     objs = []
